@@ -28,6 +28,7 @@ type Program struct {
 	SSA      *ssa.Program
 	SSAPkgs  map[string]*ssa.Package
 	cg       *callgraph.Graph
+	cgVTA    *callgraph.Graph
 	allFuncs map[*ssa.Function]bool
 	funcDecl map[*types.Func]*ast.FuncDecl
 	declPkg  map[*ast.FuncDecl]*packages.Package
@@ -162,12 +163,23 @@ func (p *Program) AllFuncs() map[*ssa.Function]bool {
 	return p.allFuncs
 }
 
-// CallGraph returns the VTA-refined CHA call graph.
+// CallGraph returns the CHA call graph. CHA is the open-world choice for a
+// library: arguments of exported entry points come from outside the module, so a
+// type-flow refinement (VTA) would prune edges to implementers that only callers
+// outside the module construct.
 func (p *Program) CallGraph() *callgraph.Graph {
 	if p.cg == nil {
-		p.cg = vta.CallGraph(p.AllFuncs(), cha.CallGraph(p.SSA))
+		p.cg = cha.CallGraph(p.SSA)
 	}
 	return p.cg
+}
+
+// CallGraphVTA returns the VTA-refined graph (closed world; for precision only).
+func (p *Program) CallGraphVTA() *callgraph.Graph {
+	if p.cgVTA == nil {
+		p.cgVTA = vta.CallGraph(p.AllFuncs(), p.CallGraph())
+	}
+	return p.cgVTA
 }
 
 // inModule reports whether fn belongs to a package of the module.
